@@ -1,5 +1,8 @@
--- driver for C15 (stub)
-def step (_line : String) : String := "bad-op"
+-- driver for C15 (and, through MainC08, for C08): gcno/gcda model
+import GrcovModel.Drv.C15
+open Grcov.Drv
+
+def step (line : String) : String := stepGcno line
 
 partial def loop (h : IO.FS.Stream) (out : IO.FS.Stream) : IO Unit := do
   let line ← h.getLine
